@@ -104,10 +104,10 @@ type refServer struct {
 
 	mu      sync.Mutex
 	recs    []*srvRec
-	fail503 int         // answer the next fail503 requests with 503 (recorded like any other)
-	streams int         // listening streams opened so far
-	cur     *stream     // the most recently opened stream: server-issued frames go there
-	issued  int         // session ids handed out so far
+	fail503 int     // answer the next fail503 requests with 503 (recorded like any other)
+	streams int     // listening streams opened so far
+	cur     *stream // the most recently opened stream: server-issued frames go there
+	issued  int     // session ids handed out so far
 	evN     int
 }
 
